@@ -301,6 +301,7 @@ func TestVerif_C04_Histories(t *testing.T) {
 	rec := verifx.NewRecorder("C04", "histories", "rapid state machine on a fresh in-memory core per case: create child / orphan / batch child, write cubbyhole, obtain leased secret, revoke (by id, self, by accessor, revoke-orphan, through the token's lease), restart on the same storage, step-down and re-acquisition of leadership on an HA-enabled node; after every action every token of the model is probed (lookup-self, request to a recording backend, accessor lookup, cubbyhole key in physical storage, lease entries); non-trivial = a successful revocation of a token with >=1 descendant and >=1 lease or cubbyhole entry in the subtree")
 	defer rec.Flush()
 	rapid.Check(t, func(rt *rapid.T) {
+		defer recoverWedged(rec)
 		ha := fairIndex(rt, "haEnabled", 4) == 0
 		w := newC04World(t, rapid.Bool().Draw(rt, "transactionalStorage"), ha)
 		defer func() { w.tc.shutdown() }()
@@ -484,6 +485,7 @@ func TestVerif_C04_Faults(t *testing.T) {
 	rec := verifx.NewRecorder("C04", "faults", "generated token tree (2-6 tokens, cubbyholes, leases); a revocation of the root of the tree is dry-run on a copy to count its storage operations n; then for every k<=n (quick: up to 14 evenly spread k, thorough: all) the k-th storage operation of the revocation request fails once on a fresh copy, the revocation is retried until it reports success, and the whole model is probed, also after a restart; likewise a crash after the first k committed writes followed by restart and retry; non-trivial = the first attempt returned an error and a retry reported success (fault) or 0<k<writes (crash)")
 	defer rec.Flush()
 	rapid.Check(t, func(rt *rapid.T) {
+		defer recoverWedged(rec)
 		base := newC04World(t, rapid.Bool().Draw(rt, "transactionalStorage"))
 		defer func() { base.tc.shutdown() }()
 		target := c04BuildTree(rt, base)
@@ -709,6 +711,7 @@ func TestVerif_C04_Schedules(t *testing.T) {
 	rec := verifx.NewRecorder("C04", "schedules", "tasks {tree revocation of P} || {create a child under P or under a descendant of P} (|| optionally a lease request with a descendant), interleaved at storage-operation granularity by a generated schedule; linearization rule: if the creation returned a token and the revocation reported success, the child must be dead once both have returned; non-trivial = at least one context switch while both tasks were unfinished")
 	defer rec.Flush()
 	rapid.Check(t, func(rt *rapid.T) {
+		defer recoverWedged(rec)
 		w := newC04World(t, rapid.Bool().Draw(rt, "transactionalStorage"))
 		defer func() { w.tc.shutdown() }()
 		depth := rapid.IntRange(1, 3).Draw(rt, "depth")
